@@ -35,8 +35,40 @@ def regen_kafkapack(root):
         return 0, p.stdout.decode("utf-8", "replace"), p.stderr.decode("utf-8", "replace")
     if os.path.exists(tmp):
         os.remove(tmp)
+    msg = p.stderr.decode("utf-8", "replace")
+    # The stale file is gone. Leave a stub with the same signatures so that the shared driver
+    # (fdmodel, used by every other property) still builds; nothing can be proved about it, and this
+    # function returns non-zero, so the C10 run is reported as a broken tie whatever the stub says.
+    with open(out, "w") as f:
+        f.write(STUB.replace("@MSG@", msg.replace("-/", "- /").replace("/-", "/ -").strip()))
     return (p.returncode or 1), p.stdout.decode("utf-8", "replace"), \
-        "go2lean could not translate plugin/input/kafka/kafka.go (tie broken): " + p.stderr.decode("utf-8", "replace")
+        "go2lean could not translate plugin/input/kafka/kafka.go (tie broken): " + msg
+
+
+STUB = """/-
+  STUB (not generated): go2lean FAILED on plugin/input/kafka/kafka.go, the stale generated file was
+  deleted. These constant definitions only keep the shared driver compiling; every C10 theorem about
+  the packing functions fails over them and ./check C10 reports the broken tie:
+  @MSG@
+-/
+namespace FileD.Gen.KafkaPack
+structure Record where
+  Partition : BitVec 32
+  ProducerEpoch : BitVec 16
+  ProducerID : BitVec 64
+  LeaderEpoch : BitVec 32
+  Offset : BitVec 64
+  deriving DecidableEq, Repr
+structure EpochOffset where
+  Epoch : BitVec 32
+  Offset : BitVec 64
+  deriving DecidableEq, Repr
+def assembleSourceID (_index : BitVec 64) (_partition : BitVec 32) : BitVec 64 := 0#64
+def disassembleSourceID (_sourceID : BitVec 64) : BitVec 64 × BitVec 32 := (0#64, 0#32)
+def assembleOffset (_message : Record) : BitVec 64 := 0#64
+def disassembleOffset (_assembledOffset : BitVec 64) : EpochOffset := { Epoch := 0#32, Offset := 0#64 }
+end FileD.Gen.KafkaPack
+"""
 
 
 # ---------------------------------------------------------------- source facts
@@ -245,7 +277,7 @@ CFG = {
         "mark_never_passes_unfinished_partial: acknowledgements arrive in consumption order per partition (e.g. one processor and an output that acknowledges in order)",
     ],
     "chunk": 4000,
-    "timeout": 900,
+    "timeout": 300,
     "widen_seeds": 2,
     "widen_cases": 30000,
 }
